@@ -7,3 +7,4 @@ from . import fiber  # noqa: F401
 from . import iterators  # noqa: F401
 from . import rank  # noqa: F401
 from . import split  # noqa: F401
+from . import format  # noqa: F401
